@@ -80,14 +80,25 @@ def _prepare_scratch():
         for h in harnesses:
             with open(os.path.join(HERE, 'native', h)) as f:
                 text += '\n' + f.read()
-        # keep the mtime of the original when nothing but our stable suffix is added: cargo fingerprints by mtime,
-        # so write only if the content differs from what is already there
-        tmp = p + '.verif'
-        with open(tmp, 'w') as f:
+        # cargo decides freshness by mtime: give the appended file a NEW mtime whenever its content differs from
+        # the one used for the last build, and the SAME mtime as last time otherwise (so unchanged sources stay fresh)
+        import hashlib
+        digest = hashlib.sha1(text.encode()).hexdigest()
+        book_path = os.path.join(CACHE, 'native-mtimes.json')
+        try:
+            with open(book_path) as f:
+                book = json.load(f)
+        except Exception:
+            book = {}
+        now = time.time()
+        if book.get(target, [None, 0])[0] != digest:
+            book[target] = [digest, now]
+            os.makedirs(CACHE, exist_ok=True)
+            with open(book_path, 'w') as f:
+                json.dump(book, f)
+        with open(p, 'w') as f:
             f.write(text)
-        st = os.stat(os.path.join(REPO, target))
-        os.utime(tmp, (st.st_atime, st.st_mtime + 1))
-        os.replace(tmp, p)
+        os.utime(p, (now, book[target][1]))
     return src
 
 
@@ -108,7 +119,7 @@ def run_native_batch(crates, filt='verif_native', timeout=3600, build_only=False
                 if build_only:
                     cmd += ['--no-run']
                 else:
-                    cmd += [filt, '--', '--nocapture', '--test-threads', '8']
+                    cmd += [filt, '--', '--show-output', '--test-threads', '1']
                 try:
                     p = subprocess.run(cmd, cwd=src, env=env, stdout=subprocess.PIPE, stderr=subprocess.STDOUT, text=True,
                                        timeout=timeout)
